@@ -957,6 +957,12 @@ fn parent(args: &Args) {
             if cfg.solver == "cvc5" && class.state_bits > cvc5_bits {
                 continue;
             }
+            // cvc5 seed 2 = --minimal-unsat-cores: 0.2-0.35 s per (get-unsat-assumptions); the relational
+            // families need 100-250 queries at 4 state bits, which is the watchdog's whole budget
+            if cfg.solver == "cvc5" && cfg.sseed == 2 && cfg.gen_on && class.state_bits > 3 && matches!(fam, "lockstep" | "fsm" | "ring") {
+                stats.inc("minimal_core_runs_skipped_expensive");
+                continue;
+            }
             jobs.push(Job { id: format!("{produced}.{k}"), family: fam.to_string(), class: label.clone(), sys_text: sys_text.clone(), cfg: cfg.clone() });
         }
         produced += 1;
